@@ -253,11 +253,16 @@ pub fn eval(e: &Expr, c: &Ctx) -> R {
             R::V(MVal::DateTime { utc: n, zone: z, off: o })
         }
         Expr::At { d, t } => {
-            if c.zone.1 != 0 { return R::Unjudged("at-under-non-utc-default-zone"); }
             let date = match eval(d, c) { R::V(MVal::Date(x)) => x, R::V(_) => return R::Unjudged("at-of-non-date"), R::AnyOf(_) => return R::Unjudged("open-choice-operand"), other => return other };
             match eval(t, c) {
-                R::V(MVal::Time { wall, off: 0, .. }) => R::V(MVal::DateTime { utc: date * 86400 + wall, zone: c.zone.0.clone(), off: 0 }),
+                // a time without a zone is wall time in the default zone
+                // ... as long as that wall time falls on the same UTC day (the calculator joins the date with the time's
+                // UTC time of day, so across that boundary it shows the neighbouring day - no statement defines 'at')
+                R::V(MVal::Time { wall, off, .. }) if off == c.zone.1 && !(0..86400).contains(&(wall - off as i64 * 60)) => R::Unjudged("at-time-wraps-the-utc-day"),
+                R::V(MVal::Time { wall, off, .. }) if off == c.zone.1 => R::V(MVal::DateTime { utc: date * 86400 + wall - off as i64 * 60, zone: c.zone.0.clone(), off }),
                 R::V(MVal::Time { .. }) => R::Unjudged("at-with-zoned-time"),
+                // (the bare-hour form is judged under a UTC default zone only: no statement says which zone the hour is in)
+                R::V(MVal::Num(_)) if c.zone.1 != 0 => R::Unjudged("at-hour-under-non-utc-default-zone"),
                 R::V(MVal::Num(h)) if h.fract() == 0.0 && (0.0..24.0).contains(&h) => R::V(MVal::DateTime { utc: date * 86400 + h as i64 * 3600, zone: c.zone.0.clone(), off: 0 }),
                 R::V(_) => R::Unjudged("at-with-this-kind"),
                 other => other,
